@@ -179,7 +179,7 @@ func TestVerif_C28(t *testing.T) {
 	r := vh.Start(t, "C28")
 	defer r.Finish()
 	r.Rule("part A: every pattern of <= 3 components over the component alphabet x {relative, absolute} x every path of <= 4 components x {absolute, relative} through Match, ChildMatch, List, ListWithChild, ValidatePatterns; " +
-		"part B: every list of <= 2 (thorough: also 3) patterns incl. negated ones x every path of <= 4 components over {a,b}; part C: malformed components in every position; " +
+		"part B: every list of <= 2 patterns and every list [p, !q, p] (thorough: also all lists of 3 over a smaller alphabet) incl. negated ones x every path of <= 4 components over {a,b}; part C: malformed components in every position; " +
 		"non-trivial = pattern/list contains a wildcard, '**', class, escape or negation, or the child-match answer is false")
 	r.Assume("reference matcher uses path.Match for one component (the documentation defines component syntax as that of filepath.Match)",
 		"child-match soundness is checked against the enumerated descendants only (total depth <= 4)",
@@ -475,6 +475,10 @@ func verifC28PartB(r *vh.Run) {
 				return
 			}
 			run(ck, []verifC28Pat{p1, p2})
+			if p2.neg && !p1.neg {
+				// the same pattern again after a negation: it selects again what the negation unselected
+				run(ck, []verifC28Pat{p1, p2, p1})
+			}
 		}
 		if p1.String() == "/a/*" {
 			r.Sample(map[string]any{"part": "B", "first_pattern": p1.String(), "second_patterns": len(pats), "paths": len(paths)})
